@@ -190,6 +190,9 @@ def run(ctx):
     ctx.run_rule('C11.3c', 'T5', 'varints narrow through TryFrom; tags are range-checked varint32', codec.r_varint_narrowing, prog)
     ctx.run_rule('C11.3e', 'T3', 'a duplicate dictionary key is an error', codec.r_duplicate_keys, prog)
     ctx.run_rule('C11.3d', 'T5', 'reply types: strict bit-sequence, strict level, tagged fields skipped', r_reply_types, prog)
+    from props import c08 as _c08
+    ctx.run_rule('C11.3f', 'T6', 'the reply types are declared and decoded with the types of the schema (a string is a validated String, never raw bytes)', _c08.r_schema_encoders, prog, ctx.repo)
+    ctx.run_rule('C11.4b', 'T10', 'a collection decoder reads exactly the announced number of elements (a truncated sequence fails, it is not shortened)', codec.r_element_count_is_announced, prog)
     ctx.run_rule('C11.4', 'T10', 'announced lengths reach reservations only bounded by remaining()', codec.r_announced_sizes, prog)
     ctx.run_rule('C11.5', 'T1', 'reply decode errors are values: propagated, converted, never unwrapped', r_reply_errors_are_values, prog)
     ctx.run_rule('C11.6', 'T2', 'a failed read leaves the source untouched; peeks never consume', codec.r_failure_leaves_no_trace, prog)
